@@ -129,8 +129,9 @@ pub trait FromMeta: Sized {
                 // proc macro (specifically, the attributes) are generated by a
                 // macro_rules! (e.g. propagating a macro_rules!'s expr)
                 // Since we want to basically ignore these invisible group delimiters,
-                // we just propagate the call to the inner expression.
-                Self::from_expr(&group.expr)
+                // we just propagate the call to the inner expression. The attributes of
+                // `#[cfg(unix)] $lit` sit on the group, see `no_attrs`.
+                no_attrs(&group.attrs).and_then(|_| Self::from_expr(&group.expr))
             }
             // syn hands `name = -1` over as a literal only when nothing follows it in the
             // stream; before another item it is `-` applied to a literal. Both spell the same
@@ -548,7 +549,12 @@ macro_rules! from_numeric_array {
                                         .with_span(expr)
                                 };
                                 // see FromMeta::from_expr
-                                match peel_groups(expr) {
+                                let mut expr = expr;
+                                while let Expr::Group(group) = expr {
+                                    no_attrs(&group.attrs)?;
+                                    expr = &group.expr;
+                                }
+                                match expr {
                                     Expr::Lit(lit) => no_attrs(&lit.attrs)
                                         .and_then(|_| $ty::from_value(&lit.lit)),
                                     _ => Err(unexpected()),
